@@ -2,8 +2,10 @@ package schd
 
 import (
 	"fmt"
+	"reflect"
 	"sort"
 	"strings"
+	"unsafe"
 
 	ipfslog "berty.tech/go-ipfs-log"
 	"berty.tech/go-ipfs-log/zvsync"
@@ -62,6 +64,7 @@ func c14Scenarios(tier string) []Spec {
 	b1, b2 := 1, 1
 	_, _ = b1, b2
 	var specs []Spec
+	focusLogs := false
 	add := func(name string, threads, bound int, build func(w *w13) ([]func(), func() []sched.Finding)) {
 		rb := 1
 		if threads >= 3 && tier != "thorough" {
@@ -71,7 +74,11 @@ func c14Scenarios(tier string) []Spec {
 		specs = append(specs, Spec{Bound: bound, HBCache: hb, RaceBound: rb, Sc: sched.Scenario{Name: name, Make: func() *sched.Instance {
 			w := newW13Sized(threads, tier != "thorough")
 			bodies, extra := build(w)
-			return &sched.Instance{Bodies: bodies, Check: func(*zvsync.Result) (string, []sched.Finding) {
+			var fo []unsafe.Pointer
+			if focusLogs {
+				fo = logLocks(w.a, w.b, w.c)
+			}
+			return &sched.Instance{Bodies: bodies, Focus: fo, Check: func(*zvsync.Result) (string, []sched.Finding) {
 				out, fs := w.finalCheck(w.a, "A", false)
 				for _, l := range []struct {
 					n string
@@ -131,9 +138,41 @@ func c14Scenarios(tier string) []Spec {
 				return mergeOracle("A", w.a, a0, []string{"x1"}, []string{b0, union(b0, "q1")})
 			}
 	})
+	// four threads: both logs merge each other while each is also being appended to. A deadlock here needs two
+	// preemptions (each merge inside its window when the appends queue up behind it), so this one is bounded at 2.
+	focusLogs = true
+	j7bound := 1
+	if tier == "thorough" {
+		j7bound = 2
+	}
+	add("J7-A.join(B)|B.join(A)|A.append|B.append", 4, j7bound, func(w *w13) ([]func(), func() []sched.Finding) {
+		a0, b0 := setOf(w.a), setOf(w.b)
+		return []func(){func() { w.joinOp(0, w.a, w.b, -1, "join:A<-B") }, func() { w.joinOp(1, w.b, w.a, -1, "join:B<-A") },
+				func() { w.appendOp(2, w.a, "x1") }, func() { w.appendOp(3, w.b, "q1") }},
+			func() []sched.Finding {
+				fs := mergeOracle("A", w.a, a0, []string{"x1"}, []string{b0, union(b0, "q1"), union(b0, a0), union(union(b0, a0), "q1"), union(union(b0, a0), "x1"), union(union(union(b0, a0), "x1"), "q1")})
+				return append(fs, mergeOracle("B", w.b, b0, []string{"q1"}, []string{a0, union(a0, "x1"), union(a0, b0), union(union(a0, b0), "x1"), union(union(a0, b0), "q1"), union(union(union(a0, b0), "x1"), "q1")})...)
+			}
+	})
+	specs[len(specs)-1].HBCache = false
+	specs[len(specs)-1].Shards = 16
+	specs[len(specs)-1].RaceBound = 0
 	return specs
 }
 
 func init() {
 	register(&Check{ID: "C14", Scenarios: c14Scenarios})
+}
+
+// logLocks returns the addresses of the logs' own reader/writer locks (the unexported field "lock"):
+// the objects at which a scenario with a focus places its preemptions.
+func logLocks(ls ...*ipfslog.IPFSLog) []unsafe.Pointer {
+	var out []unsafe.Pointer
+	for _, l := range ls {
+		f := reflect.ValueOf(l).Elem().FieldByName("lock")
+		if f.IsValid() && f.CanAddr() {
+			out = append(out, unsafe.Pointer(f.UnsafeAddr()))
+		}
+	}
+	return out
 }
